@@ -115,9 +115,9 @@ Proof.
     - eapply sort_segs_sorted. apply (i_ids _ I).
     - intros x HI. apply N.leb_le. rewrite Ecur. eapply seqN_ge. rewrite <- (i_ids _ I). apply in_map. exact HI. }
   rewrite Ekeep.
-  destruct (restore_tables (c_seed c) (tabs s)) as [l0| | | |] eqn:E0; cbn [bind]; try discriminate.
-  destruct (create_if_empty (c_seed c) s_meta_tables l0) as [l1 b1] eqn:E1.
-  destruct (replay (c_seed c) (d_wal s) None l1) as [l2| | | |] eqn:E2; cbn [bind]; try discriminate.
+  destruct (restore_tables code_seed (tabs s)) as [l0| | | |] eqn:E0; cbn [bind]; try discriminate.
+  destruct (create_if_empty code_seed s_meta_tables l0) as [l1 b1] eqn:E1.
+  destruct (replay code_seed (d_wal s) None l1) as [l2| | | |] eqn:E2; cbn [bind]; try discriminate.
   intro H. injection H as <-.
   destruct (c_wal _ C) as [pre Epre].
   destruct (restore_tables_spec _ _ _ (i_keys _ I) (i_tabs _ I) E0) as [ND0 H0].
